@@ -7,6 +7,7 @@ import (
 	"os"
 	"reflect"
 	"strconv"
+	"strings"
 
 	"mvdan.cc/sh/v3/syntax"
 	"verifsim/kit"
@@ -58,9 +59,9 @@ func (h *HistStep) setInput(b []byte) {
 
 type seqResult struct {
 	AtYield []string // dump of each statement taken when it was yielded
-	Stmts []*syntax.Stmt
-	Err   error
-	Panic string
+	Stmts   []*syntax.Stmt
+	Err     error
+	Panic   string
 }
 
 func stmtsSeqWith(p *syntax.Parser, rd *SimReader, abandonAfter int) (res seqResult) {
@@ -381,7 +382,7 @@ func genParserHistory(r *kit.Rand, pool func() []byte) []HistStep {
 			h.Plan = randomPlan(r, in)
 		}
 		switch r.Intn(5) {
-		case 0:
+		case 0, 3:
 			if len(in) > 0 {
 				h.Plan.TruncAt = r.Intn(len(in))
 			}
@@ -581,6 +582,9 @@ func runC08(it *Item, tier string, st *Stats) ([]Violation, uint64) {
 	if tier == "thorough" {
 		nplans, nhist = 8, 6
 	}
+	if strings.HasPrefix(it.Origin, "extra[") {
+		nhist *= 6 // the hand-written inputs are few: more histories each
+	}
 	// inputs used to dirty parsers/printers: other items are not reachable
 	// from here, so the pool is generated from this item's seed.
 	poolRand := r.Fork("pool")
@@ -590,6 +594,12 @@ func runC08(it *Item, tier string, st *Stats) ([]Violation, uint64) {
 	}
 	for _, lang := range it.Langs {
 		cfg := Cfg{Lang: lang, KeepComments: r.Chance(1, 2)}
+		if r.Chance(1, 5) || (strings.HasPrefix(it.Origin, "extra[") && r.Chance(1, 2)) {
+			// a stop word that the input may or may not contain; the
+			// streaming and interactive parsers must agree with Parse under
+			// the same option and must not wait for input Parse does not need
+			cfg.StopAt = kit.Pick(r, []string{"$$", "$$$", "foo", "}", "é", "éé", "done", "%", "ech", "EOF", ";", "#", "$(", "<<", "&&&"})
+		}
 		cfgHash := kit.Hash64([]byte(cfg.String()))
 		ref := parseOneShot(cfg, data)
 		parseable := ref.Panic == "" && ref.Err == nil
@@ -641,7 +651,16 @@ func runC08(it *Item, tier string, st *Stats) ([]Violation, uint64) {
 		}
 		// (3) reuse histories (the input under test may be valid or not)
 		for i := 0; i < nhist; i++ {
-			hist := genParserHistory(r, pool)
+			// a third of the earlier inputs are the input under test itself
+			// (then often cut short or failed by the step's plan): state left
+			// behind by a construct is most likely to matter to the same
+			// construct
+			hist := genParserHistory(r, func() []byte {
+				if len(data) > 0 && r.Chance(1, 3) {
+					return data
+				}
+				return pool()
+			})
 			plan := OneShot()
 			if r.Chance(1, 2) {
 				plan = randomPlan(r, data)
@@ -673,7 +692,7 @@ func runC08(it *Item, tier string, st *Stats) ([]Violation, uint64) {
 				if r.Chance(1, 4) {
 					s, _ := mutate(r, string(in))
 					in = []byte(s)
-				} else if r.Chance(1, 5) {
+				} else if r.Chance(1, 3) {
 					// the input under test itself, printed before: printing
 					// one file twice must give the same bytes twice
 					in, h.Lang = data, lang
